@@ -191,6 +191,16 @@ class FuncEffects:
                     elif k == 'array':
                         if attr in MAYALIAS_CONV:
                             out.add((k, t, f))
+                        elif attr == 'astype' and not (
+                                kwarg(e, 'copy') is None or (
+                                    isinstance(kwarg(e, 'copy'),
+                                               ast.Constant) and
+                                    kwarg(e, 'copy').value is True)):
+                            # astype(copy=False) returns the array itself
+                            # when the dtype already matches
+                            out.add((k, t, f))
+                        elif attr in ('reshape', 'ravel', 'squeeze'):
+                            out.add((k, t, f))
                         elif attr == 'get':
                             out.add((k, t, f))
                 return out
@@ -199,6 +209,10 @@ class FuncEffects:
             if name in ('np.asarray', 'asarray', 'np.asanyarray') and \
                     e.args:
                 return self.root_of(e.args[0])    # no copy for ndarray
+            if name in ('np.array', 'array') and e.args and isinstance(
+                    kwarg(e, 'copy'), ast.Constant) and \
+                    kwarg(e, 'copy').value is False:
+                return self.root_of(e.args[0])
             if name in ('_filter',) and e.args:
                 return self.root_of(e.args[0])
             return set()
